@@ -117,7 +117,8 @@ def cand_surplus(self: 'Candidate') -> 'val':
     modifies()
 
 
-@contract('droop.election.Election.logAction', props=['C18'])
+@contract('droop.election.Election.logAction', props=['C18'],
+          trusted='definition of the ghost log: a call of logAction IS a recorded action (it delegates to ElectionRecord.action)')
 def election_log(self: 'Election', action: 'str', msg: 'str'):
     "records one action (record.py contracts say what it contains)"
     modifies_ghost('nlog', 'lasttag', 'lastmsg')
@@ -131,6 +132,7 @@ def election_logmsg(self: 'Election', msg: 'str'):
     modifies_ghost('nlog', 'lasttag', 'lastmsg')
     ensures(ghost('nlog') == old(ghost('nlog')) + 1)
     ensures(ghost('lasttag') == 'log')
+    ensures(ghost('lastmsg') == msg)
 
 
 @contract('droop.election.Election.newRound', props=['C09'])
@@ -204,4 +206,36 @@ def ballot_topcand(self: 'Ballot') -> 'opt:Candidate':
     ensures(is_none(result) == (self.index >= seq_len(self.ranking)))
     ensures(implies(self.index < seq_len(self.ranking),
                     same_ref(some(result), cand_by_cid(seq_at(self.ranking, self.index)))))
+    modifies()
+
+
+# ---------------------------------------------------------------------------------------------
+# C19 O-marker: the interruption line is logged exactly once, whichever renderers are asked for
+
+@contract(['droop.election.Election.report', 'droop.election.Election.dump', 'droop.election.Election.json'], props=['C19'],
+          )
+def election_render(self: 'Election', intr: 'bool' = False) -> 'str':
+    "asking for an interrupted rendering logs the marker once and remembers it"
+    ensures(ghost('nlog') == old(ghost('nlog')) + ite(and_(intr, not_(old(self.intr_logged))), 1, 0),
+            name='the interruption marker is logged exactly once')
+    ensures(self.intr_logged == or_(old(self.intr_logged), intr))
+    ensures(implies(and_(intr, not_(old(self.intr_logged))), ghost('lastmsg') == '** count interrupted; this round is incomplete **'))
+    modifies(self, 'intr_logged')
+    modifies_ghost('nlog', 'lasttag', 'lastmsg')
+
+
+Record = cls('droop.record.ElectionRecord')
+schema('droop.record.ElectionRecord', fields={'E': 'ref:droop.election.Election', 'filled': 'bool'})
+
+
+@contract(['droop.record.ElectionRecord.report', 'droop.record.ElectionRecord.dump', 'droop.record.ElectionRecord.json'],
+          props=['C18'], trusted='renderers build text from the record dictionaries (nested dict/list structure outside the '
+                                 'verified subset); their agreement with the record is checked by the bounded stand-in of C18')
+def record_render(self: 'Record', intr: 'bool' = False) -> 'str':
+    modifies()
+
+
+@contract('droop.record.ElectionRecord.action', props=['C18', 'C19'],
+          trusted='appends one complete action dictionary (SCAN obligations append-only / complete-before-append under C19)')
+def record_action(self: 'Record', tag: 'str', msg: 'str'):
     modifies()
